@@ -283,7 +283,19 @@ func TestRange(t *testing.T) {
 				res.Hung = true
 			}
 			log.add(res)
-			if mode == "honest" && capable && res.OK && !degenerate {
+			capable2 := capable
+			if mbt.Bool(c, "soloSecond") {
+				// is a peer that holds the whole range left once the never-faulting ones are gone?
+				capable2 = false
+				for _, pi := range peersIn {
+					pm, _ := pi.(map[string]any)
+					av := mbt.Int(pm, "avail")
+					if len(mbt.Strs(pm["script"])) > 0 && (av == 0 || av >= from+amount) {
+						capable2 = true
+					}
+				}
+			}
+			if mode == "honest" && capable && capable2 && res.OK && !degenerate {
 				// the same request once more on the same client: every peer is honest and fault-free by now (the scripts
 				// are used up), so a peer that merely timed out or dropped a stream before must still be usable
 				log.mu.Lock()
